@@ -282,6 +282,13 @@ class Parser:
 
         return expr
 
+    def _int(self, token: Token) -> int:
+        """The value of a NUMBER or INTEGER token."""
+        try:
+            return int(token.value)
+        except ValueError as err:  # more digits than int() converts
+            raise PestGrammarSyntaxError("number is too large", token=token) from err
+
     def parse_repeat_expression(self, expr: Expression) -> Expression:
         token = self.next()
         kind = token.kind
@@ -290,22 +297,22 @@ class Parser:
             number = token
             if self.current().kind == TokenKind.RBRACE:
                 self.pos += 1
-                return RepeatExact(expr, int(number.value))
+                return RepeatExact(expr, self._int(number))
 
             self.eat(TokenKind.COMMA)
 
             if self.current().kind == TokenKind.RBRACE:
                 self.pos += 1
-                return RepeatMin(expr, int(number.value))
+                return RepeatMin(expr, self._int(number))
 
             stop = self.eat(TokenKind.NUMBER)
             self.eat(TokenKind.RBRACE)
-            return RepeatMinMax(expr, int(number.value), int(stop.value))
+            return RepeatMinMax(expr, self._int(number), self._int(stop))
 
         if kind == TokenKind.COMMA:
             number = self.eat(TokenKind.NUMBER)
             self.eat(TokenKind.RBRACE)
-            return RepeatMax(expr, int(number.value))
+            return RepeatMax(expr, self._int(number))
 
         raise PestGrammarSyntaxError("expected a number or a comma", token=token)
 
@@ -315,14 +322,14 @@ class Parser:
 
         self.eat(TokenKind.LBRACKET)
         if self.current().kind == TokenKind.INTEGER:
-            start: str | None = self.next().value
+            start: str | None = str(self._int(self.next()))
         else:
             start = None
 
         self.eat(TokenKind.RANGE_OP)
 
         if self.current().kind == TokenKind.INTEGER:
-            stop: str | None = self.next().value
+            stop: str | None = str(self._int(self.next()))
         else:
             stop = None
 
